@@ -13,6 +13,7 @@ package bits
 //@ axiom ErrSliceWrite != nil
 
 //@ func Mask
+//@   notypeinv
 //@   ensures result == mask(n)
 //@   assigns nothing
 
@@ -22,15 +23,18 @@ package bits
 //@ pred srSame(s *FixedSliceReader, slice0 []byte, len0 int) = s.slice == slice0 && s.len == len0
 
 //@ func NewFixedSliceReader
+//@   notypeinv
 //@   ensures srInv(result) && result.slice == data && result.pos == 0 && result.err == nil && fresh(result)
 //@   assigns nothing
 
 //@ func (*FixedSliceReader).AccError
+//@   notypeinv
 //@   requires s != nil
 //@   ensures result == s.err
 //@   assigns nothing
 
 //@ func (*FixedSliceReader).ReadUint8
+//@   notypeinv
 //@   requires srInv(s)
 //@   ensures srInv(s) && srSame(s, old(s.slice), old(s.len))
 //@   ensures old(s.err) == nil && old(s.pos)+1 <= s.len ==> s.err == nil && s.pos == old(s.pos)+1 && result == s.slice[old(s.pos)]
@@ -38,6 +42,7 @@ package bits
 //@   assigns s.pos, s.err
 
 //@ func (*FixedSliceReader).ReadUint16
+//@   notypeinv
 //@   requires srInv(s)
 //@   ensures srInv(s) && srSame(s, old(s.slice), old(s.len))
 //@   ensures old(s.err) == nil && old(s.pos)+2 <= s.len ==> s.err == nil && s.pos == old(s.pos)+2 && result == be16(s.slice, old(s.pos))
@@ -45,6 +50,7 @@ package bits
 //@   assigns s.pos, s.err
 
 //@ func (*FixedSliceReader).ReadInt16
+//@   notypeinv
 //@   requires srInv(s)
 //@   ensures srInv(s) && srSame(s, old(s.slice), old(s.len))
 //@   ensures old(s.err) == nil && old(s.pos)+2 <= s.len ==> s.err == nil && s.pos == old(s.pos)+2 && uint16(result) == be16(s.slice, old(s.pos))
@@ -52,6 +58,7 @@ package bits
 //@   assigns s.pos, s.err
 
 //@ func (*FixedSliceReader).ReadUint24
+//@   notypeinv
 //@   requires srInv(s)
 //@   ensures srInv(s) && srSame(s, old(s.slice), old(s.len))
 //@   ensures old(s.err) == nil && old(s.pos)+3 <= s.len ==> s.err == nil && s.pos == old(s.pos)+3 && result == be24(s.slice, old(s.pos))
@@ -59,6 +66,7 @@ package bits
 //@   assigns s.pos, s.err
 
 //@ func (*FixedSliceReader).ReadUint32
+//@   notypeinv
 //@   requires srInv(s)
 //@   ensures srInv(s) && srSame(s, old(s.slice), old(s.len))
 //@   ensures old(s.err) == nil && old(s.pos)+4 <= s.len ==> s.err == nil && s.pos == old(s.pos)+4 && result == be32(s.slice, old(s.pos))
@@ -66,6 +74,7 @@ package bits
 //@   assigns s.pos, s.err
 
 //@ func (*FixedSliceReader).ReadInt32
+//@   notypeinv
 //@   requires srInv(s)
 //@   ensures srInv(s) && srSame(s, old(s.slice), old(s.len))
 //@   ensures old(s.err) == nil && old(s.pos)+4 <= s.len ==> s.err == nil && s.pos == old(s.pos)+4 && uint32(result) == be32(s.slice, old(s.pos))
@@ -73,6 +82,7 @@ package bits
 //@   assigns s.pos, s.err
 
 //@ func (*FixedSliceReader).ReadUint64
+//@   notypeinv
 //@   requires srInv(s)
 //@   ensures srInv(s) && srSame(s, old(s.slice), old(s.len))
 //@   ensures old(s.err) == nil && old(s.pos)+8 <= s.len ==> s.err == nil && s.pos == old(s.pos)+8 && result == be64(s.slice, old(s.pos))
@@ -80,6 +90,7 @@ package bits
 //@   assigns s.pos, s.err
 
 //@ func (*FixedSliceReader).ReadInt64
+//@   notypeinv
 //@   requires srInv(s)
 //@   ensures srInv(s) && srSame(s, old(s.slice), old(s.len))
 //@   ensures old(s.err) == nil && old(s.pos)+8 <= s.len ==> s.err == nil && s.pos == old(s.pos)+8 && uint64(result) == be64(s.slice, old(s.pos))
@@ -87,6 +98,7 @@ package bits
 //@   assigns s.pos, s.err
 
 //@ func (*FixedSliceReader).ReadFixedLengthString
+//@   notypeinv
 //@   requires srInv(s) && n >= 0
 //@   ensures srInv(s) && srSame(s, old(s.slice), old(s.len))
 //@   ensures old(s.err) == nil && n <= s.len-old(s.pos) ==> s.err == nil && s.pos == old(s.pos)+n && len(result) == n
@@ -94,6 +106,7 @@ package bits
 //@   ensures !(old(s.err) == nil && n <= s.len-old(s.pos)) ==> s.err != nil && s.pos == old(s.pos) && len(result) == 0
 
 //@ func (*FixedSliceReader).ReadZeroTerminatedString
+//@   notypeinv
 //@   requires srInv(s) && maxLen >= 0 && maxLen <= 1<<48
 //@   ensures srInv(s) && srSame(s, old(s.slice), old(s.len))
 //@   ensures s.pos >= old(s.pos) && (old(s.err) != nil ==> s.err != nil)
@@ -102,6 +115,7 @@ package bits
 //@   loop 1 decreases maxPos - s.pos
 
 //@ func (*FixedSliceReader).ReadPossiblyZeroTerminatedString
+//@   notypeinv
 //@   requires srInv(s) && maxLen >= 0 && maxLen <= s.len-s.pos
 //@   ensures srInv(s) && srSame(s, old(s.slice), old(s.len))
 //@   ensures s.pos >= old(s.pos) && s.pos <= old(s.pos)+maxLen && s.err == old(s.err)
@@ -110,6 +124,7 @@ package bits
 //@   loop 1 decreases maxPos - s.pos
 
 //@ func (*FixedSliceReader).ReadBytes
+//@   notypeinv
 //@   requires srInv(s)
 //@   ensures srInv(s) && srSame(s, old(s.slice), old(s.len))
 //@   ensures n >= 0 && old(s.err) == nil && n <= s.len-old(s.pos) ==> s.err == nil && s.pos == old(s.pos)+n && len(result) == n && result == s.slice[old(s.pos):old(s.pos)+n]
@@ -117,6 +132,7 @@ package bits
 //@   assigns s.pos, s.err
 
 //@ func (*FixedSliceReader).RemainingBytes
+//@   notypeinv
 //@   requires srInv(s)
 //@   ensures srInv(s) && srSame(s, old(s.slice), old(s.len)) && s.err == old(s.err)
 //@   ensures old(s.err) == nil ==> s.pos == s.len && result == s.slice[old(s.pos):s.len]
@@ -124,34 +140,40 @@ package bits
 //@   assigns s.pos
 
 //@ func (*FixedSliceReader).NrRemainingBytes
+//@   notypeinv
 //@   requires srInv(s)
 //@   ensures s.err == nil ==> result == s.len - s.pos
 //@   ensures s.err != nil ==> result == 0
 //@   assigns nothing
 
 //@ func (*FixedSliceReader).SkipBytes
+//@   notypeinv
 //@   requires srInv(s) && n >= 0 && n <= 1<<62
 //@   ensures srInv(s) && srSame(s, old(s.slice), old(s.len))
 //@   ensures old(s.err) == nil && n <= s.len-old(s.pos) ==> s.err == nil && s.pos == old(s.pos)+n
 //@   ensures !(old(s.err) == nil && n <= s.len-old(s.pos)) ==> s.err != nil && s.pos == old(s.pos)
 
 //@ func (*FixedSliceReader).SetPos
+//@   notypeinv
 //@   requires srInv(s) && pos >= 0
 //@   ensures srInv(s) && srSame(s, old(s.slice), old(s.len))
 //@   ensures pos <= s.len ==> s.pos == pos && s.err == old(s.err)
 //@   ensures pos > s.len ==> s.pos == old(s.pos) && s.err != nil
 
 //@ func (*FixedSliceReader).GetPos
+//@   notypeinv
 //@   requires s != nil
 //@   ensures result == s.pos
 //@   assigns nothing
 
 //@ func (*FixedSliceReader).Length
+//@   notypeinv
 //@   requires s != nil
 //@   ensures result == s.len
 //@   assigns nothing
 
 //@ func (*FixedSliceReader).LookAhead
+//@   notypeinv
 //@   requires srInv(s) && offset >= 0 && offset <= 1<<48
 //@   ensures srInv(s) && srSame(s, old(s.slice), old(s.len)) && s.pos == old(s.pos) && s.err == old(s.err)
 //@   ensures (result == nil) == (s.pos+offset+len(data) <= s.len)
@@ -162,40 +184,48 @@ package bits
 //@ pred swStep(ok bool, errNew error, errOld error, offNew int, offOld int, n int) = (ok ==> offNew == offOld+n && errNew == errOld) && (!ok ==> offNew == offOld && errNew != nil)
 
 //@ func NewFixedSliceWriter
+//@   notypeinv
 //@   requires size >= 0 && size <= 1<<48
 //@   ensures swInv(result) && fresh(result) && fresh(result.buf) && len(result.buf) == size && result.off == 0 && result.accError == nil && result.n == 0 && result.v == 0
 //@   assigns nothing
 
 //@ func NewFixedSliceWriterFromSlice
+//@   notypeinv
 //@   ensures swInv(result) && fresh(result) && result.buf == data && result.off == 0 && result.accError == nil && result.n == 0 && result.v == 0
 //@   assigns nothing
 
 //@ func (*FixedSliceWriter).Len
+//@   notypeinv
 //@   requires sw != nil
 //@   ensures result == sw.off
 //@   assigns nothing
 
 //@ func (*FixedSliceWriter).Offset
+//@   notypeinv
 //@   requires sw != nil
 //@   ensures result == sw.off
 //@   assigns nothing
 
 //@ func (*FixedSliceWriter).Capacity
+//@   notypeinv
 //@   requires sw != nil
 //@   ensures result == len(sw.buf)
 //@   assigns nothing
 
 //@ func (*FixedSliceWriter).AccError
+//@   notypeinv
 //@   requires sw != nil
 //@   ensures result == sw.accError
 //@   assigns nothing
 
 //@ func (*FixedSliceWriter).Bytes
+//@   notypeinv
 //@   requires swInv(sw)
 //@   ensures result == sw.buf[0:sw.off]
 //@   assigns nothing
 
 //@ func (*FixedSliceWriter).WriteUint8
+//@   notypeinv
 //@   requires swInv(sw)
 //@   ensures swInv(sw) && sw.buf == old(sw.buf)
 //@   ensures swStep(old(sw.off)+1 <= len(sw.buf), sw.accError, old(sw.accError), sw.off, old(sw.off), 1)
@@ -203,6 +233,7 @@ package bits
 //@   assigns sw.off, sw.accError, sw.buf[sw.off:sw.off+1]
 
 //@ func (*FixedSliceWriter).WriteUint16
+//@   notypeinv
 //@   requires swInv(sw)
 //@   ensures swInv(sw) && sw.buf == old(sw.buf)
 //@   ensures swStep(old(sw.off)+2 <= len(sw.buf), sw.accError, old(sw.accError), sw.off, old(sw.off), 2)
@@ -210,6 +241,7 @@ package bits
 //@   assigns sw.off, sw.accError, sw.buf[sw.off:sw.off+2]
 
 //@ func (*FixedSliceWriter).WriteInt16
+//@   notypeinv
 //@   requires swInv(sw)
 //@   ensures swInv(sw) && sw.buf == old(sw.buf)
 //@   ensures swStep(old(sw.off)+2 <= len(sw.buf), sw.accError, old(sw.accError), sw.off, old(sw.off), 2)
@@ -217,6 +249,7 @@ package bits
 //@   assigns sw.off, sw.accError, sw.buf[sw.off:sw.off+2]
 
 //@ func (*FixedSliceWriter).WriteUint24
+//@   notypeinv
 //@   requires swInv(sw)
 //@   ensures swInv(sw) && sw.buf == old(sw.buf)
 //@   ensures swStep(old(sw.off)+3 <= len(sw.buf), sw.accError, old(sw.accError), sw.off, old(sw.off), 3)
@@ -224,6 +257,7 @@ package bits
 //@   assigns sw.off, sw.accError, sw.buf[sw.off:sw.off+3]
 
 //@ func (*FixedSliceWriter).WriteUint32
+//@   notypeinv
 //@   requires swInv(sw)
 //@   ensures swInv(sw) && sw.buf == old(sw.buf)
 //@   ensures swStep(old(sw.off)+4 <= len(sw.buf), sw.accError, old(sw.accError), sw.off, old(sw.off), 4)
@@ -231,6 +265,7 @@ package bits
 //@   assigns sw.off, sw.accError, sw.buf[sw.off:sw.off+4]
 
 //@ func (*FixedSliceWriter).WriteInt32
+//@   notypeinv
 //@   requires swInv(sw)
 //@   ensures swInv(sw) && sw.buf == old(sw.buf)
 //@   ensures swStep(old(sw.off)+4 <= len(sw.buf), sw.accError, old(sw.accError), sw.off, old(sw.off), 4)
@@ -238,6 +273,7 @@ package bits
 //@   assigns sw.off, sw.accError, sw.buf[sw.off:sw.off+4]
 
 //@ func (*FixedSliceWriter).WriteUint64
+//@   notypeinv
 //@   requires swInv(sw)
 //@   ensures swInv(sw) && sw.buf == old(sw.buf)
 //@   ensures swStep(old(sw.off)+8 <= len(sw.buf), sw.accError, old(sw.accError), sw.off, old(sw.off), 8)
@@ -245,6 +281,7 @@ package bits
 //@   assigns sw.off, sw.accError, sw.buf[sw.off:sw.off+8]
 
 //@ func (*FixedSliceWriter).WriteInt64
+//@   notypeinv
 //@   requires swInv(sw)
 //@   ensures swInv(sw) && sw.buf == old(sw.buf)
 //@   ensures swStep(old(sw.off)+8 <= len(sw.buf), sw.accError, old(sw.accError), sw.off, old(sw.off), 8)
@@ -252,6 +289,7 @@ package bits
 //@   assigns sw.off, sw.accError, sw.buf[sw.off:sw.off+8]
 
 //@ func (*FixedSliceWriter).WriteUint48
+//@   notypeinv
 //@   requires swInv(sw)
 //@   ensures swInv(sw) && sw.buf == old(sw.buf)
 //@   ensures swStep(old(sw.off)+6 <= len(sw.buf), sw.accError, old(sw.accError), sw.off, old(sw.off), 6)
@@ -259,6 +297,7 @@ package bits
 //@   assigns sw.off, sw.accError, sw.buf[sw.off:sw.off+6]
 
 //@ func (*FixedSliceWriter).WriteString
+//@   notypeinv
 //@   requires swInv(sw)
 //@   ensures swInv(sw) && sw.buf == old(sw.buf)
 //@   ensures swStep(old(sw.off)+len(s)+ite(addZeroEnd, 1, 0) <= len(sw.buf), sw.accError, old(sw.accError), sw.off, old(sw.off), len(s)+ite(addZeroEnd, 1, 0))
@@ -267,6 +306,7 @@ package bits
 //@   assigns sw.off, sw.accError, sw.buf[sw.off:sw.off+len(s)+1]
 
 //@ func (*FixedSliceWriter).WriteBytes
+//@   notypeinv
 //@   requires swInv(sw)
 //@   ensures swInv(sw) && sw.buf == old(sw.buf)
 //@   ensures swStep(old(sw.off)+len(byteSlice) <= len(sw.buf), sw.accError, old(sw.accError), sw.off, old(sw.off), len(byteSlice))
@@ -274,6 +314,7 @@ package bits
 //@   assigns sw.off, sw.accError, sw.buf[sw.off:sw.off+len(byteSlice)]
 
 //@ func (*FixedSliceWriter).WriteZeroBytes
+//@   notypeinv
 //@   requires swInv(sw) && n >= 0 && n <= 1<<48
 //@   ensures swInv(sw) && sw.buf == old(sw.buf)
 //@   ensures swStep(old(sw.off)+n <= len(sw.buf), sw.accError, old(sw.accError), sw.off, old(sw.off), n)
@@ -284,6 +325,7 @@ package bits
 //@   loop 1 invariant forall k int :: (k < old(sw.off) || k >= old(sw.off)+n) ==> sw.buf[k] == old(sw.buf[k])
 
 //@ func (*FixedSliceWriter).WriteUnityMatrix
+//@   notypeinv
 //@   requires swInv(sw)
 //@   ensures swInv(sw) && sw.buf == old(sw.buf)
 //@   ensures swStep(old(sw.off)+36 <= len(sw.buf), sw.accError, old(sw.accError), sw.off, old(sw.off), 36)
@@ -302,11 +344,13 @@ package bits
 //@ pred wInv(w *Writer) = w != nil && w.wr != nil && len(w.out) == 1 && 0 <= w.n && w.n < 8
 
 //@ func NewWriter
+//@   notypeinv
 //@   requires w != nil
 //@   ensures wInv(result) && fresh(result) && fresh(result.out) && result.wr == w && result.err == nil && result.n == 0 && result.v == 0
 //@   assigns nothing
 
 //@ func (*Writer).Write
+//@   notypeinv
 //@   requires w != nil && (w.err == nil ==> wInv(w)) && 0 <= n && n <= 32
 //@   ensures old(w.err) != nil ==> w.err != nil
 //@   ensures w.wr == old(w.wr) && (w.err == nil ==> wInv(w) && w.n == (old(w.n)+n)%8)
@@ -322,6 +366,7 @@ package bits
 //@   loop 1 decreases w.n
 
 //@ func (*Writer).Flush
+//@   notypeinv
 //@   requires w != nil && (w.err == nil ==> wInv(w))
 //@   ensures old(w.err) != nil ==> w.err != nil
 //@   ensures[C13] w.err == nil && old(w.n) != 0 ==> ghost(w.wr).wlen == old(ghost(w.wr).wlen)+1 && ghost(w.wr).wdata[old(ghost(w.wr).wlen)] == uint8((old(w.v) & mask(old(w.n))) << uint(8-old(w.n)))
@@ -329,60 +374,72 @@ package bits
 //@   ensures[C13] w.err == nil ==> forall i int :: 0 <= i && i < old(ghost(w.wr).wlen) ==> ghost(w.wr).wdata[i] == old(ghost(w.wr).wdata[i])
 
 //@ func (*Writer).AccError
+//@   notypeinv
 //@   requires w != nil
 //@   ensures result == w.err
 //@   assigns nothing
 
-//@ pred rInv(r *Reader) = r != nil && r.rd != nil && 0 <= r.n && r.n < 8 && r.value == r.value & mask(r.n) && r.pos+1 == ghost(r.rd).rpos && 0 <= ghost(r.rd).rpos && ghost(r.rd).rpos <= ghost(r.rd).rlen && ghost(r.rd).rlen <= 1<<48
+//@ pred rInv0(r *Reader) = r != nil && r.rd != nil && 0 <= r.n && r.n < 8 && r.value == r.value & mask(r.n) && 0 <= ghost(r.rd).rpos && ghost(r.rd).rpos <= ghost(r.rd).rlen && ghost(r.rd).rlen <= 1<<48
+//@ pred rInv(r *Reader) = rInv0(r) && r.pos+1 == ghost(r.rd).rpos
 
 //@ func NewReader
-//@   requires rd != nil && ghost(rd).rpos == 0 && 0 <= ghost(rd).rlen && ghost(rd).rlen <= 1<<48
-//@   ensures rInv(result) && fresh(result) && result.rd == rd && result.err == nil && result.n == 0 && result.value == 0
+//@   notypeinv
+//@   requires rdOK(rd)
+//@   ensures rInv0(result) && (ghost(rd).rpos == 0 ==> rInv(result)) && fresh(result) && result.rd == rd && result.err == nil && result.n == 0 && result.value == 0
 //@   assigns nothing
 
 //@ func (*Reader).Read
-//@   requires r != nil && (r.err == nil ==> rInv(r)) && 0 <= n && n <= 32
+//@   notypeinv
+//@   requires r != nil && (r.err == nil ==> rInv0(r)) && 0 <= n && n <= 1<<30
 //@   ensures old(r.err) != nil ==> r.err != nil && result == 0
 //@   ensures r.rd == old(r.rd) && ghost(r.rd).rlen == old(ghost(r.rd).rlen) && ghost(r.rd).rdata == old(ghost(r.rd).rdata)
-//@   ensures r.err == nil ==> rInv(r)
+//@   ensures r.err == nil ==> rInv0(r) && (old(rInv(r)) ==> rInv(r))
 //@   ensures r.err != nil ==> result == 0
-//@   ensures[C13] old(r.err) == nil ==> (r.err == nil) == (old(ghost(r.rd).rpos) + nrBytes(old(r.n), n) <= ghost(r.rd).rlen)
-//@   ensures[C13] r.err == nil ==> ghost(r.rd).rpos == old(ghost(r.rd).rpos) + nrBytes(old(r.n), n) && r.n == old(r.n) + 8*nrBytes(old(r.n), n) - n
-//@   ensures[C13] r.err == nil ==> result == ((old(r.value) << uint(8*nrBytes(old(r.n), n))) | rdBytes(ghost(r.rd).rdata, old(ghost(r.rd).rpos), nrBytes(old(r.n), n))) >> uint(r.n)
-//@   ensures[C13] r.err == nil ==> r.value == ((old(r.value) << uint(8*nrBytes(old(r.n), n))) | rdBytes(ghost(r.rd).rdata, old(ghost(r.rd).rpos), nrBytes(old(r.n), n))) & mask(r.n)
+//@   ensures n <= 32 ==> result <= mask(n)
+//@   ensures[C13] old(r.err) == nil && n <= 32 && old(rInv(r)) ==> (r.err == nil) == (old(ghost(r.rd).rpos) + nrBytes(old(r.n), n) <= ghost(r.rd).rlen)
+//@   ensures[C13] r.err == nil && n <= 32 ==> ghost(r.rd).rpos == old(ghost(r.rd).rpos) + nrBytes(old(r.n), n) && r.n == old(r.n) + 8*nrBytes(old(r.n), n) - n
+//@   ensures[C13] r.err == nil && n <= 32 ==> result == ((old(r.value) << uint(8*nrBytes(old(r.n), n))) | rdBytes(ghost(r.rd).rdata, old(ghost(r.rd).rpos), nrBytes(old(r.n), n))) >> uint(r.n)
+//@   ensures[C13] r.err == nil && n <= 32 ==> r.value == ((old(r.value) << uint(8*nrBytes(old(r.n), n))) | rdBytes(ghost(r.rd).rdata, old(ghost(r.rd).rpos), nrBytes(old(r.n), n))) & mask(r.n)
 //@   loop 1 invariant r != nil && r.err == nil && r.rd == old(r.rd) && r.rd != nil && 0 <= old(r.n) && old(r.n) < 8 && old(r.value) == old(r.value) & mask(old(r.n))
-//@   loop 1 invariant old(r.n) <= r.n && (r.n < n+8 || r.n == old(r.n)) && (r.n-old(r.n))%8 == 0 && (r.n-old(r.n))/8 <= 4
+//@   loop 1 invariant old(r.n) <= r.n && r.n < n+8 && (r.n-old(r.n))%8 == 0
 //@   loop 1 invariant ghost(r.rd).rlen == old(ghost(r.rd).rlen) && ghost(r.rd).rdata == old(ghost(r.rd).rdata) && ghost(r.rd).rlen <= 1<<48
-//@   loop 1 invariant ghost(r.rd).rpos == old(ghost(r.rd).rpos) + (r.n-old(r.n))/8 && r.pos+1 == ghost(r.rd).rpos && 0 <= old(ghost(r.rd).rpos) && ghost(r.rd).rpos <= ghost(r.rd).rlen
-//@   loop 1 invariant r.value == (old(r.value) << uint(r.n-old(r.n))) | rdBytes(ghost(r.rd).rdata, old(ghost(r.rd).rpos), (r.n-old(r.n))/8)
+//@   loop 1 invariant (old(rInv(r)) ==> r.pos+1 == ghost(r.rd).rpos) && 0 <= old(ghost(r.rd).rpos) && old(ghost(r.rd).rpos) <= ghost(r.rd).rpos && ghost(r.rd).rpos <= ghost(r.rd).rlen
+//@   loop 1 invariant n <= 32 ==> (r.n-old(r.n))/8 <= 4 && ghost(r.rd).rpos == old(ghost(r.rd).rpos) + (r.n-old(r.n))/8
+//@   loop 1 invariant n <= 32 ==> r.value == (old(r.value) << uint(r.n-old(r.n))) | rdBytes(ghost(r.rd).rdata, old(ghost(r.rd).rpos), (r.n-old(r.n))/8)
 //@   loop 1 decreases n - r.n
 
 //@ func (*Reader).ReadSigned
-//@   requires r != nil && (r.err == nil ==> rInv(r)) && 1 <= n && n <= 32
+//@   notypeinv
+//@   requires r != nil && (r.err == nil ==> rInv0(r)) && 1 <= n && n <= 1<<30
 //@   ensures old(r.err) != nil ==> r.err != nil && result == 0
-//@   ensures r.err == nil ==> rInv(r)
+//@   ensures r.err == nil ==> rInv0(r)
 
 //@ func (*Reader).ReadFlag
-//@   requires r != nil && (r.err == nil ==> rInv(r))
+//@   notypeinv
+//@   requires r != nil && (r.err == nil ==> rInv0(r))
 //@   ensures old(r.err) != nil ==> r.err != nil && result == false
-//@   ensures r.err == nil ==> rInv(r)
+//@   ensures r.err == nil ==> rInv0(r)
 
 //@ func (*Reader).AccError
+//@   notypeinv
 //@   requires r != nil
 //@   ensures result == r.err
 //@   assigns nothing
 
 //@ func (*Reader).NrBytesRead
+//@   notypeinv
 //@   requires r != nil
 //@   ensures result == r.pos + 1
 //@   assigns nothing
 
 //@ func (*Reader).NrBitsReadInCurrentByte
+//@   notypeinv
 //@   requires r != nil
 //@   ensures result == 8 - r.n
 //@   assigns nothing
 
 //@ func (*Reader).NrBitsRead
+//@   notypeinv
 //@   requires r != nil && 0 <= r.n && r.n < 8 && r.pos >= -1 && r.pos < 1<<48
 //@   ensures[C13] result == 8*(r.pos+1) - r.n
 //@   assigns nothing
@@ -392,11 +449,13 @@ package bits
 //@ pred ewInv(w *EBSPWriter) = w != nil && w.wr != nil && len(w.out) == 1 && 0 <= w.n && w.n < 8 && 0 <= w.nr0 && w.nr0 <= 2 && w.nr0 == ghost(w.wr).wz && !ghost(w.wr).wesc && 0 <= ghost(w.wr).plen && ghost(w.wr).plen <= 1<<56
 
 //@ func NewEBSPWriter
+//@   notypeinv
 //@   requires w != nil && ghost(w).wz == 0 && !ghost(w).wesc && 0 <= ghost(w).plen && ghost(w).plen <= 1<<56
 //@   ensures ewInv(result) && fresh(result) && fresh(result.out) && result.wr == w && result.err == nil && result.n == 0 && result.v == 0
 //@   assigns nothing
 
 //@ func (*EBSPWriter).Write
+//@   notypeinv
 //@   requires w != nil && (w.err == nil ==> ewInv(w) && 0 <= n && n <= 32)
 //@   ensures old(w.err) != nil ==> w.err != nil
 //@   ensures w.wr == old(w.wr) && (w.err == nil ==> ewInv(w) && w.n == (old(w.n)+n)%8)
@@ -415,21 +474,25 @@ package bits
 //@   loop 1 decreases w.n
 
 //@ func (*EBSPWriter).AccError
+//@   notypeinv
 //@   requires w != nil
 //@   ensures result == w.err
 //@   assigns nothing
 
 //@ func (*EBSPWriter).NrBitsInBuffer
+//@   notypeinv
 //@   requires w != nil
 //@   ensures result == uint(w.n)
 //@   assigns nothing
 
 //@ func (*EBSPWriter).BitsInBuffer
+//@   notypeinv
 //@   requires w != nil
 //@   ensures bits == w.v && n == uint(w.n)
 //@   assigns nothing
 
 //@ func (*EBSPWriter).StuffByteWithZeros
+//@   notypeinv
 //@   requires w != nil && (w.err == nil ==> ewInv(w))
 //@   ensures old(w.err) != nil ==> w.err != nil
 //@   ensures w.wr == old(w.wr) && (w.err == nil ==> ewInv(w) && w.n == 0)
@@ -439,6 +502,7 @@ package bits
 //@   ensures[C13] w.err == nil ==> ghost(w.wr).wlegal == old(ghost(w.wr).wlegal) && ghost(w.wr).wtight == old(ghost(w.wr).wtight)
 
 //@ func (*EBSPWriter).WriteRbspTrailingBits
+//@   notypeinv
 //@   requires w != nil && (w.err == nil ==> ewInv(w))
 //@   ensures old(w.err) != nil ==> w.err != nil
 //@   ensures w.wr == old(w.wr) && (w.err == nil ==> ewInv(w) && w.n == 0)
@@ -452,6 +516,7 @@ package bits
 //@ spec ueLenHi(v uint) uint = ite(v+1 < 1<<17, uint(16), ite(v+1 < 1<<18, uint(17), ite(v+1 < 1<<19, uint(18), ite(v+1 < 1<<20, uint(19), ite(v+1 < 1<<21, uint(20), ite(v+1 < 1<<22, uint(21), ite(v+1 < 1<<23, uint(22), ite(v+1 < 1<<24, uint(23), ite(v+1 < 1<<25, uint(24), ite(v+1 < 1<<26, uint(25), ite(v+1 < 1<<27, uint(26), ite(v+1 < 1<<28, uint(27), ite(v+1 < 1<<29, uint(28), ite(v+1 < 1<<30, uint(29), ite(v+1 < 1<<31, uint(30), uint(31))))))))))))))))
 
 //@ func (*EBSPWriter).WriteExpGolomb
+//@   notypeinv
 //@   requires w != nil && (w.err == nil ==> ewInv(w)) && nr < 1<<32 - 1
 //@   ensures old(w.err) != nil ==> w.err != nil
 //@   ensures w.wr == old(w.wr) && (w.err == nil ==> ewInv(w))
@@ -461,6 +526,7 @@ package bits
 //@   loop 1 decreases 32 - prefixLen
 
 //@ func (*EBSPWriter).WriteSEIValue
+//@   notypeinv
 //@   requires w != nil && (w.err == nil ==> ewInv(w) && w.n == 0)
 //@   ensures old(w.err) != nil ==> w.err != nil
 //@   ensures w.wr == old(w.wr) && (w.err == nil ==> ewInv(w) && w.n == 0)
@@ -481,31 +547,38 @@ package bits
 //@ pred erInv(r *EBSPReader) = erInvW(r) && vMasked(r)
 
 //@ func NewEBSPReader
-//@   requires rd != nil && ghost(rd).rpos == 0 && 0 <= ghost(rd).rlen && ghost(rd).rlen <= 1<<48 && ghost(rd).rz == 0 && ghost(rd).rplen == 0 && ebspSync(rd)
-//@   ensures erInv(result) && fresh(result) && result.rd == rd && result.err == nil && result.n == 0 && result.v == 0
+//@   notypeinv
+//@   requires rdOK(rd)
+//@   ensures result != nil && erInv0(result) && fresh(result) && result.rd == rd && result.err == nil && result.n == 0 && result.v == 0
+//@   ensures ghost(rd).rpos == 0 && ghost(rd).rz == 0 && ghost(rd).rplen == 0 && ebspSync(rd) ==> erInv(result)
 //@   assigns nothing
 
 //@ func (*EBSPReader).AccError
+//@   notypeinv
 //@   requires r != nil
 //@   ensures result == r.err
 //@   assigns nothing
 
 //@ func (*EBSPReader).NrBytesRead
+//@   notypeinv
 //@   requires r != nil
 //@   ensures result == r.pos + 1
 //@   assigns nothing
 
 //@ func (*EBSPReader).NrBitsReadInCurrentByte
+//@   notypeinv
 //@   requires r != nil
 //@   ensures result == 8 - r.n
 //@   assigns nothing
 
 //@ func (*EBSPReader).NrBitsRead
+//@   notypeinv
 //@   requires r != nil && 0 <= r.n && r.n < 8 && r.pos >= -1 && r.pos < 1<<48
 //@   ensures[C13] result == 8*(r.pos+1) - r.n
 //@   assigns nothing
 
 //@ func (*EBSPReader).Read
+//@   notypeinv
 //@   requires r != nil && (r.err == nil ==> erInv0(r)) && n <= 1<<52
 //@   ensures old(r.err) != nil ==> r.err != nil && result == 0
 //@   ensures r.rd == old(r.rd) && ghost(r.rd).rlen == old(ghost(r.rd).rlen) && ghost(r.rd).rdata == old(ghost(r.rd).rdata)
@@ -531,6 +604,7 @@ package bits
 //@   loop 1 decreases n - r.n
 
 //@ func (*EBSPReader).ReadFlag
+//@   notypeinv
 //@   requires erOK(r)
 //@   ensures r.rd == old(r.rd) && erOK(r) && (old(r.err) != nil ==> r.err != nil && result == false)
 //@   ensures r.err == nil && old(erInvW(r)) ==> erInv(r)
@@ -539,6 +613,7 @@ package bits
 //@   ensures old(r.err) == nil ==> ghost(r.rd).rpos >= old(ghost(r.rd).rpos) && ghost(r.rd).rlen == old(ghost(r.rd).rlen)
 
 //@ func (*EBSPReader).ReadBytes
+//@   notypeinv
 //@   requires erOK(r) && 0 <= n && n <= 1<<48
 //@   ensures r.rd == old(r.rd) && erOK(r) && (old(r.err) != nil ==> r.err != nil)
 //@   ensures r.err == nil ==> len(result) == n
@@ -548,6 +623,7 @@ package bits
 //@   loop 1 decreases n - i
 
 //@ func (*EBSPReader).ReadExpGolomb
+//@   notypeinv
 //@   requires erOK(r)
 //@   ensures r.rd == old(r.rd) && erOK(r) && (old(r.err) != nil ==> r.err != nil && result == 0)
 //@   ensures r.err != nil ==> result == 0
@@ -560,6 +636,7 @@ package bits
 //@   loop 1 decreases ghost(r.rd).rlen - ghost(r.rd).rpos, r.n
 
 //@ func (*EBSPReader).ReadSignedGolomb
+//@   notypeinv
 //@   requires erOK(r)
 //@   ensures r.rd == old(r.rd) && erOK(r) && (old(r.err) != nil ==> r.err != nil && result == 0)
 //@   ensures r.err == nil && old(erInvW(r)) ==> erInvW(r)
@@ -568,16 +645,19 @@ package bits
 //@   ensures old(r.err) == nil && r.err == nil ==> ghost(r.rd).rpos > old(ghost(r.rd).rpos) || (ghost(r.rd).rpos == old(ghost(r.rd).rpos) && r.n < old(r.n))
 
 //@ func (*EBSPReader).SetError
+//@   notypeinv
 //@   requires r != nil
 //@   ensures r.n == old(r.n) && r.rd == old(r.rd) && (old(r.err) != nil ==> r.err == old(r.err)) && (old(r.err) == nil ==> r.err == err)
 //@   assigns r.err
 
 //@ func (*EBSPReader).IsSeeker
+//@   notypeinv
 //@   requires r != nil
 //@   ensures result == implements(r.rd, "io.ReadSeeker")
 //@   assigns nothing
 
 //@ func (*EBSPReader).reset
+//@   notypeinv
 //@   requires r != nil && implements(r.rd, "io.ReadSeeker")
 //@   ensures r.rd == old(r.rd) && r.err == old(r.err) && ghost(r.rd).rlen == old(ghost(r.rd).rlen) && ghost(r.rd).rdata == old(ghost(r.rd).rdata)
 //@   ensures old(0 <= ghost(r.rd).rpos && ghost(r.rd).rpos <= ghost(r.rd).rlen) ==> 0 <= ghost(r.rd).rpos && ghost(r.rd).rpos <= ghost(r.rd).rlen
@@ -585,6 +665,7 @@ package bits
 //@   ensures result == nil && 0 <= prevState.pos+1 && prevState.pos+1 <= ghost(r.rd).rlen ==> ghost(r.rd).rpos == prevState.pos+1 && ebspSync(r.rd)
 
 //@ func (*EBSPReader).MoreRbspData
+//@   notypeinv
 //@   requires erOK(r)
 //@   ensures r.rd == old(r.rd) && (old(r.err) != nil ==> r.err != nil)
 //@   ensures old(r.err) == nil && r.err == nil && result1 == nil && old(erInvW(r)) ==> erInvW(r) && ghost(r.rd).rpos == old(ghost(r.rd).rpos) && r.n == old(r.n) && r.v == old(r.v)
@@ -594,19 +675,21 @@ package bits
 //@   loop 1 decreases ghost(r.rd).rlen - ghost(r.rd).rpos, r.n
 
 //@ func (*EBSPReader).ReadRbspTrailingBits
+//@   notypeinv
 //@   requires erOK(r)
 //@   ensures r.rd == old(r.rd) && erOK(r)
 //@   loop 1 invariant r != nil && r.rd == old(r.rd) && r.err == nil && erInv0(r) && ghost(r.rd).rlen == old(ghost(r.rd).rlen)
 //@   loop 1 decreases ghost(r.rd).rlen - ghost(r.rd).rpos, r.n
 
 //@ func (*FixedSliceWriter).WriteBits
-//@   requires sw != nil && (sw.accError == nil ==> swInv(sw) && 0 <= sw.n && sw.n < 8 && 0 <= n && n <= 32)
+//@   notypeinv
+//@   requires swInv(sw) && (sw.accError == nil ==> 0 <= sw.n && sw.n < 8 && 0 <= n && n <= 1<<30)
 //@   ensures old(sw.accError) != nil ==> sw.accError != nil
-//@   ensures sw.buf == old(sw.buf) && (sw.accError == nil ==> swInv(sw) && sw.n == (old(sw.n)+n)%8 && sw.off == old(sw.off) + (old(sw.n)+n)/8)
-//@   ensures[C17] sw.accError == nil ==> forall j int :: 0 <= j && j < (old(sw.n)+n)/8 ==> sw.buf[old(sw.off)+j] == outByte(wX(old(sw.v), bits, n), old(sw.n)+n, j)
+//@   ensures sw.buf == old(sw.buf) && swInv(sw) && (sw.accError == nil ==> sw.n == (old(sw.n)+n)%8 && sw.off == old(sw.off) + (old(sw.n)+n)/8)
+//@   ensures[C17] sw.accError == nil && n <= 32 ==> forall j int :: 0 <= j && j < (old(sw.n)+n)/8 ==> sw.buf[old(sw.off)+j] == outByte(wX(old(sw.v), bits, n), old(sw.n)+n, j)
 //@   ensures[C17] sw.accError == nil ==> sw.v & mask(sw.n) == wX(old(sw.v), bits, n) & mask(sw.n)
 //@   ensures[C17] forall k int :: (k < old(sw.off) || k >= old(sw.off) + (old(sw.n)+n)/8) ==> sw.buf[k] == old(sw.buf[k])
-//@   loop 1 invariant sw != nil && sw.buf == old(sw.buf) && swInv(sw) && old(sw.accError) == nil && sw.v == wX(old(sw.v), bits, n) && 0 <= old(sw.n) && old(sw.n) < 8 && 0 <= n && n <= 32
+//@   loop 1 invariant sw != nil && sw.buf == old(sw.buf) && swInv(sw) && old(sw.accError) == nil && sw.v == wX(old(sw.v), bits, n) && 0 <= old(sw.n) && old(sw.n) < 8 && 0 <= n && n <= 1<<30
 //@   loop 1 invariant 0 <= sw.n && sw.n <= old(sw.n)+n && (old(sw.n)+n-sw.n)%8 == 0
 //@   loop 1 invariant sw.accError == nil ==> sw.off == old(sw.off) + (old(sw.n)+n-sw.n)/8
 //@   loop 1 invariant[C17] sw.accError == nil ==> forall j int :: 0 <= j && j < (old(sw.n)+n-sw.n)/8 ==> sw.buf[old(sw.off)+j] == outByte(wX(old(sw.v), bits, n), old(sw.n)+n, j)
@@ -615,47 +698,58 @@ package bits
 //@   loop 1 decreases sw.n
 
 //@ func (*FixedSliceWriter).WriteFlag
-//@   requires sw != nil && (sw.accError == nil ==> swInv(sw) && 0 <= sw.n && sw.n < 8)
+//@   notypeinv
+//@   requires swInv(sw) && (sw.accError == nil ==> 0 <= sw.n && sw.n < 8)
 //@   ensures old(sw.accError) != nil ==> sw.accError != nil
-//@   ensures sw.buf == old(sw.buf) && (sw.accError == nil ==> swInv(sw) && sw.n == (old(sw.n)+1)%8 && sw.off == old(sw.off) + (old(sw.n)+1)/8)
+//@   ensures sw.buf == old(sw.buf) && swInv(sw) && (sw.accError == nil ==> sw.n == (old(sw.n)+1)%8 && sw.off == old(sw.off) + (old(sw.n)+1)/8)
 
 //@ func (*FixedSliceWriter).FlushBits
-//@   requires sw != nil && (sw.accError == nil ==> swInv(sw) && 0 <= sw.n && sw.n < 8)
+//@   notypeinv
+//@   requires swInv(sw) && (sw.accError == nil ==> 0 <= sw.n && sw.n < 8)
 //@   ensures old(sw.accError) != nil ==> sw.accError != nil
-//@   ensures sw.buf == old(sw.buf) && (sw.accError == nil ==> swInv(sw) && sw.off == old(sw.off) + ite(old(sw.n) != 0, 1, 0))
+//@   ensures sw.buf == old(sw.buf) && swInv(sw) && (sw.accError == nil ==> sw.off == old(sw.off) + ite(old(sw.n) != 0, 1, 0))
 //@   ensures[C17] sw.accError == nil && old(sw.n) != 0 ==> sw.buf[old(sw.off)] == uint8((old(sw.v) & mask(old(sw.n))) << uint(8-old(sw.n)))
 
 //@ func CeilLog2
+//@   notypeinv
 //@   ensures 0 <= result && result <= 32
 //@   assigns nothing
 
 // ---------------------------------------------------------------- ByteWriter
 
 //@ func NewByteWriter
+//@   notypeinv
 //@   ensures fresh(result) && result.w == w && result.err == nil
 //@   assigns nothing
 
 //@ func (*ByteWriter).AccError
+//@   notypeinv
 //@   requires a != nil
 //@   ensures result == a.err
 //@   assigns nothing
 
 //@ func (*ByteWriter).WriteUint8
+//@   notypeinv
 //@   requires a != nil && a.w != nil
 //@   ensures a.w == old(a.w) && (old(a.err) != nil ==> a.err == old(a.err))
 //@ func (*ByteWriter).WriteUint16
+//@   notypeinv
 //@   requires a != nil && a.w != nil
 //@   ensures a.w == old(a.w) && (old(a.err) != nil ==> a.err == old(a.err))
 //@ func (*ByteWriter).WriteUint32
+//@   notypeinv
 //@   requires a != nil && a.w != nil
 //@   ensures a.w == old(a.w) && (old(a.err) != nil ==> a.err == old(a.err))
 //@ func (*ByteWriter).WriteUint48
+//@   notypeinv
 //@   requires a != nil && a.w != nil
 //@   ensures a.w == old(a.w) && (old(a.err) != nil ==> a.err == old(a.err))
 //@ func (*ByteWriter).WriteUint64
+//@   notypeinv
 //@   requires a != nil && a.w != nil
 //@   ensures a.w == old(a.w) && (old(a.err) != nil ==> a.err == old(a.err))
 //@ func (*ByteWriter).WriteSlice
+//@   notypeinv
 //@   requires a != nil && a.w != nil
 //@   ensures a.w == old(a.w) && (old(a.err) != nil ==> a.err == old(a.err))
 
@@ -664,11 +758,17 @@ package bits
 
 //@ pred erOK(r *EBSPReader) = r != nil && (r.err == nil ==> erInv0(r))
 //@ pred ewOK(w *EBSPWriter) = w != nil && (w.err == nil ==> ewInv(w))
-//@ pred rOK(r *Reader) = r != nil && (r.err == nil ==> rInv(r))
+//@ pred rOK(r *Reader) = r != nil && (r.err == nil ==> rInv0(r))
 //@ pred wOK(w *Writer) = w != nil && (w.err == nil ==> wInv(w))
 //@ pred swOK(sw *FixedSliceWriter) = swInv(sw) && (sw.accError == nil ==> 0 <= sw.n && sw.n < 8)
 //@ pred srOKi(sr SliceReader) = typeis(sr, "*FixedSliceReader") && srInv(sr.(*FixedSliceReader))
 //@ pred swOKi(sw SliceWriter) = typeis(sw, "*FixedSliceWriter") && swOK(sw.(*FixedSliceWriter))
+//@ pred rdOK(rd io.Reader) = rd != nil && 0 <= ghost(rd).rpos && ghost(rd).rpos <= ghost(rd).rlen && ghost(rd).rlen <= 1<<48
+//@ pred rsOK(rd io.ReadSeeker) = rd != nil && 0 <= ghost(rd).rpos && ghost(rd).rpos <= ghost(rd).rlen && ghost(rd).rlen <= 1<<48
+//@ pred wrOK(w io.Writer) = w != nil
+//@ typeinv io.Reader rdOK
+//@ typeinv io.ReadSeeker rsOK
+//@ typeinv io.Writer wrOK
 //@ typeinv *EBSPReader erOK
 //@ typeinv *EBSPWriter ewOK
 //@ typeinv *Reader rOK
@@ -681,5 +781,6 @@ package bits
 //@ devirt SliceWriter = *FixedSliceWriter
 
 //@ func (*Reader).ReadRemainingBytes
-//@   requires r != nil && (r.err == nil ==> rInv(r))
+//@   notypeinv
+//@   requires r != nil && (r.err == nil ==> rInv0(r))
 //@   ensures r.rd == old(r.rd) && (old(r.err) != nil ==> r.err != nil)
